@@ -251,6 +251,32 @@ func (p *pkgInfo) emitFacts(o *out) {
 			if a == recv+"."+muName+".Lock()" && b == "defer "+recv+"."+muName+".Unlock()" {
 				holdsLock[k] = true
 			}
+			// the same critical section without defer: Lock() first, Unlock() as the very last
+			// statement, and no return / goto / other Unlock in between (every path leaves through it)
+			last := p.src(fd.Body.List[len(fd.Body.List)-1])
+			if a == recv+"."+muName+".Lock()" && last == recv+"."+muName+".Unlock()" && fd.Type.Results == nil {
+				clean := true
+				for _, st := range fd.Body.List[1 : len(fd.Body.List)-1] {
+					ast.Inspect(st, func(n ast.Node) bool {
+						switch v := n.(type) {
+						case *ast.ReturnStmt, *ast.FuncLit, *ast.GoStmt, *ast.DeferStmt:
+							clean = false
+						case *ast.BranchStmt:
+							if v.Tok == token.GOTO {
+								clean = false
+							}
+						case *ast.CallExpr:
+							if strings.HasSuffix(p.src(v.Fun), "."+muName+".Unlock") || strings.HasSuffix(p.src(v.Fun), "."+muName+".Lock") {
+								clean = false
+							}
+						}
+						return clean
+					})
+				}
+				if clean {
+					holdsLock[k] = true
+				}
+			}
 		}
 		if touches {
 			touching = append(touching, k)
